@@ -64,7 +64,7 @@ pub fn inputs(format: &str, tier: Tier) -> Inputs {
         }
         nb.extend(single_edit_neighbours(d, &MARKERS));
     }
-    let sequences = dedup_docs(token_sequences(&tokens(format), tier.pick(2, 3)));
+    let sequences = dedup_docs(token_sequences(&tokens(format), tier.pick(3, 3)));
     Inputs { corpus, neighbours: dedup_docs(nb), sequences }
 }
 
